@@ -290,6 +290,8 @@ fn build<T: El, C: PositiveLength>(plan: &Plan<T>, bg: &dyn Fn(usize, usize, usi
     let max_index = match SHORT.with(|x| x.get()) {
         1 => full.saturating_sub(cols / 2 + 1),
         2 => 0,
+        // a matrix WITHOUT rows whose index bound is positive (`resize(0, n)` is public): still no cell, no maximum
+        3 => 40,
         _ => full,
     };
     let s = if SHRUNK.with(|x| x.get()) {
@@ -453,6 +455,18 @@ pub fn check_plan<T: El + Runner<T>>(plan: &Plan<T>, cfg: MCfg, ts: &[T], rep: &
         check_plan_inner(plan, cfg, ts, rep, " short-max_index");
         SHORT.with(|x| x.set(2));
         check_plan_inner(plan, cfg, ts, rep, " zero-max_index");
+        SHORT.with(|x| x.set(0));
+    }
+    // a zero-row matrix with a positive index bound (seeded change C06-u: an emptiness test on max_index instead of
+    // the rows reads through the dangling pointer of the empty storage), fresh and shrunk from a 3-row buffer
+    if plan.rows == 0 && !matches!(cfg, MCfg::Unstriped) && SHORT.with(|x| x.get()) == 0 {
+        SHORT.with(|x| x.set(3));
+        check_plan_inner(plan, cfg, ts, rep, " zero-rows positive-max_index");
+        if !SHRUNK.with(|x| x.get()) {
+            SHRUNK.with(|x| x.set(true));
+            check_plan_inner(plan, cfg, ts, rep, " shrunk-buffer zero-rows positive-max_index");
+            SHRUNK.with(|x| x.set(false));
+        }
         SHORT.with(|x| x.set(0));
     }
     check_plan_inner(plan, cfg, ts, rep, "");
